@@ -11,6 +11,7 @@ import Shutter.Drive.TriggerDef
 import Shutter.Drive.Api
 import Shutter.Drive.Signers
 import Shutter.Drive.EpochKG
+import Shutter.Drive.EonPk
 
 open Shutter
 
@@ -22,6 +23,7 @@ def dispatch (st : DState) (line : String) : DState × String :=
   | "APP" :: rest =>
     let (a, out) := Drive.App.step st.app rest
     ({ st with app := a }, out)
+  | "EPK" :: rest => (st, Drive.EonPk.step rest)
   | "KG" :: rest => (st, Drive.EpochKG.step rest)
   | "SG" :: rest => (st, Drive.Signers.step rest)
   | "API" :: rest => (st, Drive.Api.step rest)
